@@ -89,7 +89,10 @@ package drpcstream
 
 //@ func (*Stream).checkCancelError
 //@   props C03 C04 C05
+//@   assumes "the cancel signal of a stream is only ever set with a non-nil error (asserted at the Set call sites: [nonnil-set]; Cancel requires err != nil)"
+//@   site (*Signal).Err assumeafter [nonnil] ret != nil
 //@   ensures [cancel-wins] sCancel(s) || result == err
+//@   ensures [keeps-error] err != nil ==> result != nil
 
 //@ func (*Stream).newFrameLocked
 //@   props C07 C01
@@ -296,3 +299,49 @@ package drpcstream
 //@   site (*Stream).rawWriteLocked assert [C01.kind] arg1 == drpcwire.KindMessage && held(s.write.Mutex)
 //@   check [C01.flush-after-send] err == nil && !s.opts.ManualFlush ==> wrote && flushed
 //@   check [C03.finished-check] eventAfterLast("unlock:storj.io/drpc/drpcstream.Stream.write", "call:(*Stream).checkFinished")
+
+// ---- receiving
+
+// checkRecvFlush: the first receive flushes whatever the invoke corked; a failing flush is reported.
+//@ func (*Stream).checkRecvFlush
+//@   props C01 C03
+//@   requires s.wr != nil && s.wr.w != nil
+//@   modifies allmem
+
+// MsgRecv: the lent buffer is used only between Get and Done, no lock is taken and nothing that can
+// block on the transport is called in that window; the finished check runs after the read lock is
+// released.
+//@ func (*Stream).MsgRecv
+//@   props C01 C03 C04
+//@   requires s.wr != nil && s.wr.w != nil && enc != nil
+//@   modifies allmem
+//@   ghost entry lent = nil
+//@   ghost after:(*packetBuffer).Get lent = ret0
+//@   ghost entry gerr = nil
+//@   ghost after:(*packetBuffer).Get gerr = ret1
+//@   site Unmarshal assert [C01.uses-lent-buffer] arg1 == lent && gerr == nil && eventAfterLast("call:(*packetBuffer).Done", "call:(*packetBuffer).Get")
+//@   site (*packetBuffer).Done assert [C01.done-after-use] gerr == nil
+//@   check [C01.get-error] gerr != nil ==> err == gerr && eventCount("call:(*packetBuffer).Done") == 0
+//@   check [C04.window]    eventAfterLast("call:(*packetBuffer).Get", "call:(*packetBuffer).Done") || gerr != nil || eventCount("call:(*packetBuffer).Get") == 0
+//@   check [C03.finished-check] eventAfterLast("unlock:storj.io/drpc/drpcstream.Stream.read", "call:(*Stream).checkFinished")
+
+//@ func (*Stream).RawRecv
+//@   props C01 C03 C04
+//@   requires s.wr != nil && s.wr.w != nil
+//@   modifies allmem
+//@   ghost entry gerr = nil
+//@   ghost after:(*packetBuffer).Get gerr = ret1
+//@   ghost entry lent = nil
+//@   ghost after:(*packetBuffer).Get lent = ret0
+//@   check [C01.copy]      err == nil ==> len(data) == len(lent) && (len(lent) > 0 ==> fresh(data))
+//@   check [C01.get-error] gerr != nil ==> err == gerr && eventCount("call:(*packetBuffer).Done") == 0
+//@   check [C03.finished-check] eventAfterLast("unlock:storj.io/drpc/drpcstream.Stream.read", "call:(*Stream).checkFinished")
+
+// NewWithOptions: the shared writer is reset (frames a predecessor left unflushed are dropped) and
+// the stream starts with message id 0 on the given stream id.
+//@ func NewWithOptions
+//@   props C02 C07 C03
+//@   requires wr != nil
+//@   modifies allmem
+//@   ensures [fresh] result != nil && result.id.Stream == sid && result.id.Message == 0 && result.wr == wr
+//@   ensures [reset] eventCount("call:(*Writer).Reset") == 1
